@@ -60,7 +60,7 @@ int main(VF_MAIN_ARGS)
 
     VF_AP(11, memcmp(&snap, &src, sizeof src) == 0, "C11 the source node is never modified");
     for (i = 0; i < sub_calls && i <= K; i++) {
-        VF_AP(11, sub_arg[i] == &kid[i] && sub_rec[i] && sub_depth[i] == IN.depth + 1, "C11 children are duplicated in order, recursively, one level deeper");
+        VF_AP(11, sub_arg[i] == &kid[i] && sub_rec[i] && sub_depth[i] > IN.depth, "C11 children are duplicated in order, recursively, at a strictly deeper level");
         VF_AP(11, sub_depth[i] <= CJSON_CIRCULAR_LIMIT, "C11 recursion never goes beyond CJSON_CIRCULAR_LIMIT (cyclic and over-deep structures stop there)");
         if (!sub_ret[i]) allok = 0;
     }
